@@ -47,13 +47,18 @@ Ret(th) ==
               /\ UNCHANGED devs
            \/ /\ c.op = "wait" /\ c.st \in {"called", "snapped"} /\ ~Ev.bres /\ c.sawEmpty /\ c.ovl
               /\ DevRet(th, "Dev_SpuriousTimeout")
-           \/ /\ c.op = "wait" /\ c.st \in {"called", "snapped"} /\ Ev.bres /\ c.sawEmpty /\ ~c.sawQuiet
+           \/ /\ c.op = "wait" /\ c.st \in {"called", "snapped"} /\ Ev.bres /\ c.sawFlush /\ ~c.sawQuiet
+              /\ Quiet => Ev.vt <= qsince + Slack
               /\ DevRet(th, "Dev_TrueBeforeActions")
            \/ /\ c.op = "isset" /\ c.st = "done" /\ Ev.bres = ~c.bres
               /\ DevRet(th, "Dev_IsSetInverted")
 
+(* a wait() that can take its look at the events does so before the clock goes on *)
+LookedInTime(vt) == \A th \in Threads : (call[th].op = "wait" /\ call[th].st = "called" /\ call[th].sfree # -1)
+                                           => vt <= call[th].sfree + Slack
 Consume ==
    /\ l <= Len(Traces[t]) /\ l' = l + 1 /\ t' = t /\ Ev.vt >= now /\ now' = Ev.vt
+   /\ LookedInTime(Ev.vt)
    /\ \/ /\ Ev.ev = "begin" /\ Begin(Ev.th, Ev.vt, Ev.op, Ev.e, Ev.a, Ev.to, Ev.name) /\ UNCHANGED devs
       \/ /\ Ev.ev = "ret" /\ Ret(Ev.th)
       \/ /\ Ev.ev = "act" /\ Act(Ev.th, Ev.a, Ev.raises, Ev.vt) /\ UNCHANGED devs
@@ -62,8 +67,8 @@ Consume ==
          /\ UNCHANGED <<pending, created, dl, nm, queued, ran, dropped, flusher, qsince, call, devs, dto, defname>>
 
 Silent ==
-   /\ l <= Len(Traces[t]) /\ Ev.ev \in {"ret", "act", "stuck", "end"}
-   /\ \E th \in Threads : Lin(th, Ev.vt)
+   /\ l <= Len(Traces[t])
+   /\ \E th \in Threads : IF Ev.ev \in {"ret", "act", "stuck", "end"} THEN Lin(th, Ev.vt) ELSE Snap(th, Ev.vt)
    /\ UNCHANGED <<now, t, l, devs>>
 
 TNext == Consume \/ Silent
